@@ -1,10 +1,151 @@
-(* C03 — receive endpoints: every complete packet once, then a sticky end-of-stream.  Statements only. *)
-From EN Require Import Lib.Bytes Frame.Framer Stream.Consumer Stream.Endpoint Proofs.C03_proofs.
+(* C03 — receive endpoints: every complete packet once, then a sticky end-of-stream.  Statements only.
 
-(* A recv_packet call without timeout (blocking endpoint: timeout=None; asynchronous endpoint: no timeout scope)
-   never reports a timeout, whatever the consumer, the receive path, the state and the transport do. *)
+   Vocabulary (definitions, no proofs): Stream/Endpoint.v (the model: receive, run_calls, copy_machine, buf_machine),
+   Stream/EndpointSpec.v (consumer_ok, stream_of, delivered, expected, results, raises).
+   The four main theorems hold for BOTH receiver implementations, blocking and asynchronous, for any consumer machine
+   M satisfying the interface [consumer_ok M spec R] (frame-by-frame decoding independent of the cut: C02's theorem for
+   the consumer models); they are then instantiated, closed, for the copying consumer over the fixed-size framer. *)
+From Coq Require Import List Arith.
+From EN Require Import Lib.Bytes Frame.Framer Frame.ReadUntil Stream.Consumer Stream.Endpoint Stream.EndpointSpec
+  Proofs.C03_proofs Proofs.C03_fixed.
+Import ListNotations.
+
+(* For every transport oracle (chunking, silences, transport errors, position of the peer's close, even data after the
+   close) and every history of recv_packet calls with timeouts in {None, 0, >0}: the j-th result that is neither a
+   TimeoutError nor a transport error is the j-th element of
+        frame-by-frame decoding of the peer's stream  ++  [ConnectionAborted; ConnectionAborted; ...]. *)
+Theorem recv_sequence :
+  forall (P C : Type) (M : machine P C) (mode : emode) (spec : bytes -> list (nres P)) (R : C -> bytes -> nat -> Prop),
+    consumer_ok M spec R ->
+    forall c0 : C, R c0 [] 0 ->
+    forall (o : oracle) (ts : list (option nat)) (j : nat) (r : rres P),
+      nth_error (delivered (results (run_calls M mode (linit c0) o ts))) j = Some r ->
+      r = expected (spec (stream_of o)) j.
+Proof. exact (@recv_sequence_proof). Qed.
+Print Assumptions recv_sequence.
+
+(* A trailing incomplete frame (bytes that add no event to the decoding) never produces a packet: every delivered
+   result beyond the complete frames is ConnectionAborted. *)
+Theorem no_partial_delivery :
+  forall (P C : Type) (M : machine P C) (mode : emode) (spec : bytes -> list (nres P)) (R : C -> bytes -> nat -> Prop),
+    consumer_ok M spec R ->
+    forall c0 : C, R c0 [] 0 ->
+    forall (o : oracle) (ts : list (option nat)) (s1 tail : bytes),
+      stream_of o = s1 ++ tail -> spec (s1 ++ tail) = spec s1 ->
+      forall (j : nat) (r : rres P),
+        nth_error (delivered (results (run_calls M mode (linit c0) o ts))) j = Some r ->
+        length (spec s1) <= j -> r = RecvAborted.
+Proof. exact (@no_partial_delivery_proof). Qed.
+Print Assumptions no_partial_delivery.
+
+(* Once a call has reported ConnectionAborted, every later call reports it again, whatever its timeout, and does not
+   consult the transport: the transport oracle [o'] it is given (arbitrary, it may even hold data) comes back untouched. *)
+Theorem eof_sticky :
+  forall (P C : Type) (M : machine P C) (mode : emode) (spec : bytes -> list (nres P)) (R : C -> bytes -> nat -> Prop),
+    consumer_ok M spec R ->
+    forall c0 : C, R c0 [] 0 ->
+    forall (o : oracle) (ts1 : list (option nat)) rs1 st1 o1,
+      run_calls M mode (linit c0) o ts1 = (rs1, st1, o1) ->
+      forall t st2 o2 el, receive M mode t st1 o1 = (st2, o2, RecvAborted, el) ->
+      forall (ts' : list (option nat)) (o' : oracle),
+        exists st3, run_calls M mode st2 o' ts' = (map (fun _ => (RecvAborted, o')) ts', st3, o').
+Proof. exact (@eof_sticky_proof). Qed.
+Print Assumptions eof_sticky.
+
+(* Timeouts (and transport errors) lose nothing: after ANY history of calls, enough calls without timeout return all
+   the events of the stream, in order, then ConnectionAborted. *)
+Theorem timeout_loses_nothing :
+  forall (P C : Type) (M : machine P C) (mode : emode) (spec : bytes -> list (nres P)) (R : C -> bytes -> nat -> Prop),
+    consumer_ok M spec R ->
+    forall c0 : C, R c0 [] 0 ->
+    forall (o : oracle) (ts : list (option nat)),
+      let evs := spec (stream_of o) in
+      firstn (S (length evs))
+             (delivered (results (run_calls M mode (linit c0) o (ts ++ repeat None (S (length evs) + raises o)))))
+      = map of_nres evs ++ [RecvAborted].
+Proof. exact (@timeout_loses_nothing_proof). Qed.
+Print Assumptions timeout_loses_nothing.
+
+(* A call without timeout never reports a timeout (no hypothesis on the consumer). *)
 Theorem blocking_call_never_times_out :
   forall (P C : Type) (M : machine P C) (mode : emode) (st : lstate) (o : oracle) st' o' r el,
     receive M mode None st o = (st', o', r, el) -> r <> RecvTimeout.
 Proof. exact (@receive_none_no_timeout). Qed.
 Print Assumptions blocking_call_never_times_out.
+
+(* ---- the interface is satisfiable: the copying consumer over the fixed-size framer, any codec, any max_recv_size *)
+
+(* fx_spec = decoding by consecutive blocks of [size] bytes; these two equations determine it *)
+Theorem fx_spec_short_tail :
+  forall (P : Type) (size : nat) (dec : decoder P) (d : bytes), length d < size -> fx_spec size dec d = [].
+Proof. exact (@fx_spec_short). Qed.
+Print Assumptions fx_spec_short_tail.
+
+Theorem fx_spec_one_block :
+  forall (P : Type) (size : nat) (dec : decoder P) (d : bytes), 0 < size -> size <= length d ->
+    fx_spec size dec d = fx_event dec (firstn size d) :: fx_spec size dec (skipn size d).
+Proof. exact (@fx_spec_long'). Qed.
+Print Assumptions fx_spec_one_block.
+
+Theorem fixed_size_consumer_ok :
+  forall (P : Type) (size : nat) (dec : decoder P) (bufsize : nat), 0 < size -> 0 < bufsize ->
+    consumer_ok (copy_machine (rx_framer size dec) bufsize) (fx_spec size dec) (fx_R size dec)
+    /\ fx_R size dec (cinit (rx_framer size dec)) [] 0.
+Proof. exact (@fx_ok_and_init). Qed.
+Print Assumptions fixed_size_consumer_ok.
+
+(* closed instances (no interface hypothesis left) *)
+Theorem recv_sequence_fixed_size :
+  forall (P : Type) (size : nat) (dec : decoder P) (bufsize : nat), 0 < size -> 0 < bufsize ->
+  forall (mode : emode) (o : oracle) (ts : list (option nat)) (j : nat) (r : rres P),
+    nth_error (delivered (results (run_calls (copy_machine (rx_framer size dec) bufsize) mode
+                                             (linit (cinit (rx_framer size dec))) o ts))) j = Some r ->
+    r = expected (fx_spec size dec (stream_of o)) j.
+Proof. exact (@fixed_recv_sequence). Qed.
+Print Assumptions recv_sequence_fixed_size.
+
+Theorem no_partial_delivery_fixed_size :
+  forall (P : Type) (size : nat) (dec : decoder P) (bufsize : nat), 0 < size -> 0 < bufsize ->
+  forall (mode : emode) (o : oracle) (ts : list (option nat)) (s1 tail : bytes),
+    stream_of o = s1 ++ tail -> length s1 = (length s1 / size) * size -> length tail < size ->
+    forall (j : nat) (r : rres P),
+      nth_error (delivered (results (run_calls (copy_machine (rx_framer size dec) bufsize) mode
+                                               (linit (cinit (rx_framer size dec))) o ts))) j = Some r ->
+      length s1 / size <= j -> r = RecvAborted.
+Proof. exact (@fixed_no_partial). Qed.
+Print Assumptions no_partial_delivery_fixed_size.
+
+Theorem eof_sticky_fixed_size :
+  forall (P : Type) (size : nat) (dec : decoder P) (bufsize : nat), 0 < size -> 0 < bufsize ->
+  forall (mode : emode) (o : oracle) (ts1 : list (option nat)) rs1 st1 o1,
+    run_calls (copy_machine (rx_framer size dec) bufsize) mode (linit (cinit (rx_framer size dec))) o ts1 = (rs1, st1, o1) ->
+    forall t st2 o2 el,
+      receive (copy_machine (rx_framer size dec) bufsize) mode t st1 o1 = (st2, o2, RecvAborted, el) ->
+      forall (ts' : list (option nat)) (o' : oracle),
+        exists st3, run_calls (copy_machine (rx_framer size dec) bufsize) mode st2 o' ts'
+                    = (map (fun _ => (RecvAborted, o')) ts', st3, o').
+Proof. exact (@fixed_eof_sticky). Qed.
+Print Assumptions eof_sticky_fixed_size.
+
+Theorem timeout_loses_nothing_fixed_size :
+  forall (P : Type) (size : nat) (dec : decoder P) (bufsize : nat), 0 < size -> 0 < bufsize ->
+  forall (mode : emode) (o : oracle) (ts : list (option nat)),
+    let evs := fx_spec size dec (stream_of o) in
+    firstn (S (length evs))
+           (delivered (results (run_calls (copy_machine (rx_framer size dec) bufsize) mode
+                                          (linit (cinit (rx_framer size dec))) o
+                                          (ts ++ repeat None (S (length evs) + raises o)))))
+    = map of_nres evs ++ [RecvAborted].
+Proof. exact (@fixed_timeout_loses_nothing). Qed.
+Print Assumptions timeout_loses_nothing_fixed_size.
+
+(* ---- non-vacuity: a concrete history.  size 2, identity codec, max_recv_size 3; the peer sends "ab" | silence |
+   "cde" then closes inside the third frame; calls: timeout 0, timeout 0, None, None, timeout 5, None. *)
+Example c03_example :
+  let M := copy_machine (rx_framer 2 (fun b => Some b)) 3 in
+  let o := [TData [97;98]%N 1; TWouldTimeout; TData [99;100;101]%N 0; TEof; TData [102;103]%N 0] in
+  results (run_calls M Blocking (linit (cinit _)) o [Some 0; Some 0; None; None; Some 5; None])
+  = [RecvPkt [97;98]%N; RecvTimeout; RecvPkt [99;100]%N; RecvAborted; RecvAborted; RecvAborted]
+  /\ stream_of o = [97;98;99;100;101]%N
+  /\ fx_spec 2 (fun b => Some b) (stream_of o) = [RPkt [97;98]%N; RPkt [99;100]%N].
+Proof. vm_compute. repeat split. Qed.
